@@ -180,6 +180,8 @@ def alt_form(libv, node, rng):
         return libv.decode("latin-1") if x < 0.4 else libv[0] if x < 0.7 else libv
     if k == "array" and node["elem"]["k"] == "char" and isinstance(libv, bytes) and rng.random() < 0.6:
         return libv.decode("latin-1")
+    if k == "enum" and isinstance(libv, _enum.Enum) and rng.random() < 0.4:
+        return int(libv.value)      # the underlying integer instead of the member
     return libv
 
 
